@@ -12,8 +12,11 @@ import (
 	"sync"
 	"time"
 
+	gxbytes "github.com/dubbogo/gost/bytes"
+
 	"seata.apache.org/seata-go/pkg/protocol/branch"
 	"seata.apache.org/seata-go/pkg/protocol/message"
+	sgetty "seata.apache.org/seata-go/pkg/remoting/getty"
 	"seata.apache.org/seata-go/pkg/rm"
 
 	"verifh/hutil"
@@ -57,6 +60,7 @@ type p2resp struct {
 }
 
 type p2case struct {
+	inwire   bool // requests arrive as frames through ONE reusable receive buffer, as getty reads a session
 	late     []string
 	Kind     string      `json:"kind"`
 	Known    []string    `json:"known"`                 // failures inside the predicate of a listed finding
@@ -70,6 +74,8 @@ type p2case struct {
 }
 
 type p2world struct {
+	gate     chan struct{} // when set: managers block here until the stream's later frames have been received
+	entered  chan struct{} // a manager has been entered (and is about to block)
 	mu       sync.Mutex
 	script   map[string]*p2req
 	consults []p2consult
@@ -82,9 +88,22 @@ type scriptedRM struct{ bt branch.BranchType }
 func (s *scriptedRM) call(method string, res rm.BranchResource) (branch.BranchStatus, error) {
 	k := res.Xid + "/" + strconv.FormatInt(res.BranchId, 10)
 	theP2.mu.Lock()
-	theP2.consults = append(theP2.consults, p2consult{int(uint8(s.bt)), method, res.Xid, res.BranchId, res.ResourceId, string(res.ApplicationData)})
+	theP2.consults = append(theP2.consults, p2consult{int(uint8(s.bt)), method, strings.Clone(res.Xid), res.BranchId, strings.Clone(res.ResourceId), string(res.ApplicationData)})
 	sc := theP2.script[k]
+	gate, entered := theP2.gate, theP2.entered
 	theP2.mu.Unlock()
+	if gate != nil {
+		select {
+		case entered <- struct{}{}:
+		default:
+		}
+		lim, stop := patient(10 * time.Second)
+		select {
+		case <-gate:
+		case <-lim:
+		}
+		stop()
+	}
 	if sc == nil {
 		return branch.BranchStatusUnknown, fmt.Errorf("scripted manager: unknown branch %s", k)
 	}
@@ -228,7 +247,71 @@ func deliverPhase(r *runner, cs *p2case, idxs []int, workers int, bound time.Dur
 		q := &cs.Reqs[i]
 		r.handler.OnMessage(r.sess, message.RpcMessage{ID: q.MsgID, Type: message.GettyRequestTypeRequestSync, Codec: 1, Body: q.body()})
 	}
-	if workers == 0 {
+	if cs.inwire {
+		// getty's read side: every frame is received into the session's ONE packet buffer (gost
+		// bytes.Buffer: the storage is reused once drained), decoded there by the real
+		// RpcPackageHandler.Read, handed to OnMessage in a task goroutine, and the buffer moves on.
+		// The managers block until all later frames (and one more receive) have gone through.
+		h := &sgetty.RpcPackageHandler{}
+		pktBuf := gxbytes.NewBuffer(nil)
+		recv := func(c []byte) {
+			for len(c) > 0 {
+				buf := pktBuf.WriteNextBegin(4 * 1024)
+				n := copy(buf, c)
+				pktBuf.WriteNextEnd(n)
+				c = c[n:]
+			}
+		}
+		gate, entered := make(chan struct{}), make(chan struct{}, len(idxs)+1)
+		theP2.mu.Lock()
+		theP2.gate, theP2.entered = gate, entered
+		theP2.mu.Unlock()
+		for _, i := range idxs {
+			q := &cs.Reqs[i]
+			frame, err := h.Write(r.sess, message.RpcMessage{ID: q.MsgID, Type: message.GettyRequestTypeRequestSync, Codec: 1, Body: q.body()})
+			if err != nil {
+				cs.late = append(cs.late, fmt.Sprintf("request %d cannot be encoded: %v", i, err))
+				continue
+			}
+			recv(append([]byte(nil), frame...))
+			for pktBuf.Len() > 0 {
+				pkg, n, derr := h.Read(r.sess, pktBuf.Bytes())
+				if derr != nil || pkg == nil || n <= 0 {
+					cs.late = append(cs.late, fmt.Sprintf("frame of request %d not decoded: n=%d err=%v", i, n, derr))
+					pktBuf.Reset()
+					break
+				}
+				wg.Add(1)
+				go func(i int, pkg interface{}) {
+					defer wg.Done()
+					defer func() {
+						if p := recover(); p != nil {
+							pan[i] = firstLine(fmt.Sprintf("%v", p))
+						}
+					}()
+					r.handler.OnMessage(r.sess, pkg)
+				}(i, pkg)
+				pktBuf.Next(n)
+			}
+			// the next frame arrives while this request's manager is at work
+			lim, stop := patient(200 * time.Millisecond)
+			select {
+			case <-entered:
+			case <-lim:
+			}
+			stop()
+		}
+		filler := make([]byte, 256)
+		for i := range filler {
+			filler[i] = 0xee
+		}
+		recv(filler)
+		theP2.mu.Lock()
+		theP2.gate, theP2.entered = nil, nil
+		theP2.mu.Unlock()
+		close(gate)
+		close(start)
+	} else if workers == 0 {
 		for _, i := range idxs {
 			wg.Add(1)
 			go func(i int) { defer wg.Done(); <-start; one(i) }(i)
@@ -245,7 +328,9 @@ func deliverPhase(r *runner, cs *p2case, idxs []int, workers int, bound time.Dur
 			}(w)
 		}
 	}
-	close(start)
+	if !cs.inwire {
+		close(start)
+	}
 	done := make(chan struct{})
 	go func() { wg.Wait(); close(done) }()
 	limit, stopLimit := patient(bound)
@@ -449,6 +534,23 @@ func wireCase(r *runner, rng *hutil.Rng, caseNo, n int) *p2case {
 	return cs
 }
 
+// inwireCase: requests arrive as frames through getty's reusable receive buffer while the managers
+// of earlier requests are still at work; every reply must carry its OWN request's xid and branch id
+func inwireCase(r *runner, rng *hutil.Rng, caseNo, n int) *p2case {
+	cs := &p2case{Kind: "inwire", inwire: true}
+	bts := []int{0, 1, 3}
+	for i := 0; i < n; i++ {
+		q := p2req{Idx: i, Code: []int{3, 5}[rng.Intn(2)], MsgID: int32(100 + i),
+			Xid:    fmt.Sprintf("10.0.%d.%d:8091:%09d", rng.Intn(10), rng.Intn(10), rng.Intn(1000000000)),
+			Branch: int64(caseNo)*1000000 + int64(i), BType: bts[rng.Intn(3)],
+			Resource: fmt.Sprintf("jdbc:mysql://db-%04d/app", rng.Intn(10000)), Data: fmt.Sprintf("{\"k\":%06d}", rng.Intn(1000000)),
+			Status: rng.Intn(11), Fail: rng.Chance(1, 6)}
+		q.Expect = stFor(q.Status, q.BType, q.Fail, false)
+		cs.Reqs = append(cs.Reqs, q)
+	}
+	return runStream(r, cs, [][]int{allIdx(n)}, 0, 15*time.Second)
+}
+
 // lookupHammer: the routing step itself (rm cache: branch type -> manager) under concurrent
 // lookups of different branch types, the way concurrent phase-two requests of different
 // types perform it: every lookup must return the manager registered for the type asked for
@@ -586,6 +688,18 @@ func p2Oracle(cs *p2case) {
 	}
 	for i, p := range cs.Resps {
 		if !used[i] {
+			for _, q := range cs.Reqs {
+				if q.Branch == p.Branch && q.MsgID == p.MsgID && q.Xid != p.Xid {
+					whose := "no request's"
+					for _, o := range cs.Reqs {
+						if o.Xid == p.Xid {
+							whose = fmt.Sprintf("request %d's", o.Idx)
+						}
+					}
+					// first in the list: it names what went wrong for the "no response" entries of this request
+					cs.Oracle = append([]string{fmt.Sprintf("the reply to request %d (id %d, branch id %d, xid %s) carries the xid %q, which is %s", q.Idx, q.MsgID, q.Branch, q.Xid, p.Xid, whose)}, cs.Oracle...)
+				}
+			}
 			cs.Oracle = append(cs.Oracle, fmt.Sprintf("response id %d %s/%d status %d answers no request of the stream", p.MsgID, p.Xid, p.Branch, p.Status))
 		}
 	}
@@ -635,6 +749,9 @@ func Run15(args map[string]string) {
 	cases = append(cases, attritionCase(r, rng.Fork(901), 9002, hutil.ArgInt(args, "nfail", 48), 12))
 	for i := 0; i < hutil.ArgInt(args, "wires", 8) && failing() < 3; i++ {
 		cases = append(cases, wireCase(r, rng.Fork(uint64(950+i)), 9500+i, 24+rng.Intn(24)))
+	}
+	for i := 0; i < hutil.ArgInt(args, "inwires", 4) && failing() < 3; i++ {
+		cases = append(cases, inwireCase(r, rng.Fork(uint64(970+i)), 9700+i, 8+rng.Intn(12)))
 	}
 	for h := 0; h < hutil.ArgInt(args, "hammers", 2) && failing() < 1; h++ {
 		cases = append(cases, hammerCase(r, rng.Fork(uint64(910+h)), 9010+h, hutil.ArgInt(args, "hammer", 6000), 8))
